@@ -7,6 +7,7 @@ the macro's `validate` accepts — the only validity condition used is its name-
 every database field list and every value assignment.  Helper lemmas: `ScyllaVerif/Proofs/Derive.lean`.
 -/
 import ScyllaVerif.Proofs.Derive
+import ScyllaVerif.Proofs.DeriveFlatten
 
 namespace ScyllaVerif.Props.C16
 open ScyllaVerif.Derive
@@ -980,12 +981,1491 @@ theorem serRowByName_iff (fvs : List (Field × Val)) (db : List Col) (hv : Valid
         exfalso
         by_cases hany : ((markAll (db.map (·.name)) (entries fvs)).any fun e => !e.visited) = true
         · simp [hany] at h
-        · simp [hany] at h
+        · apply hany
+          have hpos : 0 < unv allTrue (markAll (db.map (·.name)) (entries fvs)) := by omega
+          simpa [allTrue] using (unv_pos_iff allTrue _).mp hpos
       · rintro ⟨_, h2, _⟩; exact absurd (hmiss.mpr h2) hz
   · rw [if_neg ha]
     simp only [reduceCtorEq, false_iff]
     rintro ⟨h1, _, _⟩
     exact ha (hall.mpr h1)
+
+/-! ### by-name UDT deserialization: exact success condition and order independence -/
+
+private theorem tcEntry_lookup (fields : List Field) (hv : ValidNames (slots fields)) (f : Field) (hf : f ∈ fields)
+    (hs : f.skip = false) : lookupE f.col (tcEntries fields) = some ⟨f, none, false⟩ := by
+  rw [tcEntries_eq]
+  exact lookupE_of_mem hv (e := ⟨f, none, false⟩)
+    (mem_entries.mpr ⟨(f, none), List.mem_map.mpr ⟨f, hf, rfl⟩, hs, rfl⟩)
+
+/-- `deserValueByName_spec` as an equivalence: type check + deserialization succeed with `vs` exactly when the
+type check passes, every bound cell deserializes, and `vs` is the list of the fields' documented results. -/
+theorem deserValueByName_iff (d : Desc) (db : List Col) (cells : List Cell) (vs : List Val)
+    (hfl : d.flavor = .byName) (hv : ValidNames (slots d.fields)) :
+    deserValue d db cells = .ok vs ↔
+      tcValueByName d db = .ok () ∧ (∀ f ∈ d.fields, (fieldResult db cells f).isSome = true) ∧
+      vs = d.fields.map (fun f => (fieldResult db cells f).getD none) := by
+  constructor
+  · intro h0
+    have h := h0
+    unfold deserValue at h
+    rw [hfl] at h
+    simp only [] at h
+    cases htc : tcValueByName d db with
+    | error x => rw [htc] at h; cases h
+    | ok u =>
+      cases u
+      rw [htc] at h
+      simp only [] at h
+      unfold deValueByName at h
+      cases hloop : dvDeLoop (udtItems db cells) (tcEntries d.fields) with
+      | error x => rw [hloop] at h; cases h
+      | ok es' =>
+        rw [hloop] at h
+        simp only [] at h
+        have hlk := dvDeLoop_lookup _ _ es' hloop
+        have hsome := dvFinalize_ok_lookup es' d.fields vs h
+        have hall : ∀ f ∈ d.fields, (fieldResult db cells f).isSome = true := by
+          intro f hf
+          unfold fieldResult cellFor
+          by_cases hs : f.skip = true
+          · simp [hs]
+          · simp only [Bool.not_eq_true] at hs
+            simp only [hs, Bool.false_eq_true, if_false]
+            cases hfd : (udtItems db cells).find? (fun it => it.1.name == f.col) with
+            | none => rfl
+            | some it =>
+              simp only [Option.map_some]
+              cases hd : deValD f it.2 with
+              | some v => rfl
+              | none =>
+                exfalso
+                have h1 := hlk f.col
+                rw [hfd, tcEntry_lookup d.fields hv f hf hs] at h1
+                simp only [Option.bind_some, hd, Option.map_none] at h1
+                have := hsome f hf hs
+                rw [h1] at this
+                cases this
+        refine ⟨rfl, hall, ?_⟩
+        have := deserValueByName_spec d db cells hfl hv htc hall
+        rw [h0] at this
+        cases this
+        rfl
+  · rintro ⟨htc, hall, rfl⟩
+    exact deserValueByName_spec d db cells hfl hv htc hall
+
+private theorem udtItems_zip (items : List (Col × Cell)) :
+    udtItems (items.map (·.1)) (items.map (·.2)) = items := by
+  induction items with
+  | nil => rfl
+  | cons a rest ih => simp [udtItems, ih]
+
+/-- `deserValueByName_perm`: the database may send the (field, cell) pairs in any order — the deserialized
+struct is the same -/
+theorem deserValueByName_perm (d : Desc) (items items' : List (Col × Cell)) (vs : List Val)
+    (hfl : d.flavor = .byName) (hv : ValidNames (slots d.fields)) (hp : items.Perm items') :
+    deserValue d (items.map (·.1)) (items.map (·.2)) = .ok vs ↔
+      deserValue d (items'.map (·.1)) (items'.map (·.2)) = .ok vs := by
+  -- symmetric statement: prove one direction for an arbitrary permutation
+  have key : ∀ (a b : List (Col × Cell)), a.Perm b →
+      deserValue d (a.map (·.1)) (a.map (·.2)) = .ok vs → deserValue d (b.map (·.1)) (b.map (·.2)) = .ok vs := by
+    intro a b hab h
+    obtain ⟨htc, hall, hvs⟩ := (deserValueByName_iff d _ _ vs hfl hv).mp h
+    have htc' : tcValueByName d (b.map (·.1)) = .ok () :=
+      (tcValueByName_perm d _ _ hv (hab.map _)).mp htc
+    obtain ⟨_, hnd, _⟩ := (tcValueByName_accepts_iff d _ hv).mp htc
+    obtain ⟨_, hnd', _⟩ := (tcValueByName_accepts_iff d _ hv).mp htc'
+    -- the cell found under a bound name is the same in both orders
+    have hq : ∀ (l : List (Col × Cell)), (matchedNames (fieldFor (slots d.fields)) (l.map (·.1))).Nodup →
+        ((l.filter (fun it => (fieldFor (slots d.fields) it.1.name).isSome)).map (fun it => it.1.name)).Nodup := by
+      intro l hl
+      unfold matchedNames at hl
+      rw [List.filter_map, List.map_map] at hl
+      exact hl
+    have hcell : ∀ f ∈ d.fields, f.skip = false →
+        cellFor (b.map (·.1)) (b.map (·.2)) f.col = cellFor (a.map (·.1)) (a.map (·.2)) f.col := by
+      intro f hf hs
+      unfold cellFor
+      rw [udtItems_zip, udtItems_zip]
+      have hbound : (fieldFor (slots d.fields) f.col).isSome = true := by
+        have := congrFun (show fv (tcEntries d.fields) = fieldFor (slots d.fields) from by
+          funext n; rw [tcEntries_eq, fv_entries]) f.col
+        rw [← this]; unfold fv; rw [tcEntry_lookup d.fields hv f hf hs]; rfl
+      cases hfa : a.find? (fun it => it.1.name == f.col) with
+      | some it =>
+        have hname : it.1.name = f.col := by simpa using List.find?_some hfa
+        have hit : it ∈ b := hab.mem_iff.mp (List.mem_of_find?_eq_some hfa)
+        have := find_unique b (fun n => (fieldFor (slots d.fields) n).isSome) (hq b hnd') it hit
+          (by rw [hname]; exact hbound)
+        rw [hname] at this
+        rw [this]
+      | none =>
+        have : b.find? (fun it => it.1.name == f.col) = none := by
+          rw [List.find?_eq_none] at hfa ⊢
+          intro it hit
+          exact hfa it (hab.mem_iff.mpr hit)
+        rw [this]
+    have hres : ∀ f ∈ d.fields, fieldResult (b.map (·.1)) (b.map (·.2)) f = fieldResult (a.map (·.1)) (a.map (·.2)) f := by
+      intro f hf
+      unfold fieldResult
+      by_cases hs : f.skip = true
+      · simp [hs]
+      · simp only [Bool.not_eq_true] at hs
+        simp only [hs, Bool.false_eq_true, if_false, hcell f hf hs]
+    apply (deserValueByName_iff d _ _ vs hfl hv).mpr
+    refine ⟨htc', fun f hf => by rw [hres f hf]; exact hall f hf, ?_⟩
+    rw [hvs]
+    apply List.map_congr_left
+    intro f hf
+    rw [hres f hf]
+  exact ⟨key items items' hp, key items' items hp.symm⟩
+
+/-! ### `#[derive(DeserializeRow)]`, by name -/
+
+/-- what the row macros accept: there is no `allow_missing` attribute for rows -/
+def RowFields (fields : List Field) : Prop := ∀ f ∈ fields, f.allowMissing = false
+
+/-- the UDT descriptor a row descriptor behaves like: every excess column is forbidden -/
+def asUdt (d : Desc) : Desc := { d with forbidExcess := true }
+
+private theorem dvFinalize_err (es : List Entry) (fields : List Field) :
+    ∀ x, dvFinalize es fields = .error x → x = .panic := by
+  induction fields with
+  | nil => intro x h; cases h
+  | cons f fs ih =>
+    intro x h
+    unfold dvFinalize at h
+    simp only [] at h
+    split at h
+    · rename_i x' hhead
+      cases h
+      split at hhead
+      · cases hhead
+      · split at hhead
+        · split at hhead
+          · cases hhead
+          · split at hhead
+            · cases hhead
+            · cases hhead; rfl
+        · cases hhead; rfl
+    · split at h
+      · rename_i x' hr
+        cases h
+        exact ih _ hr
+      · cases h
+
+private theorem mapErr_dvFinalize (es : List Entry) (fields : List Field) :
+    mapErr rowErrOf (dvFinalize es fields) = dvFinalize es fields := by
+  cases h : dvFinalize es fields with
+  | ok v => rfl
+  | error x => rw [dvFinalize_err es fields x h]; rfl
+
+private theorem rowRequired_eq (fields : List Field) (hr : RowFields fields) :
+    rowRequiredCount fields = requiredCount fields := by
+  unfold rowRequiredCount requiredCount
+  congr 1
+  apply List.filter_congr
+  intro f hf
+  simp [Field.required, hr f hf]
+
+/-- the by-name row type check is the by-name UDT type check with excess columns forbidden -/
+theorem tcRowByName_eq (d : Desc) (db : List Col) (hr : RowFields d.fields) :
+    tcRowByName d db = mapErr rowErrOf (tcValueByName (asUdt d) db) := by
+  unfold tcRowByName tcValueByName
+  rw [rowRequired_eq d.fields hr]
+  have hreq : ∀ e ∈ tcEntries d.fields, e.f.required = true := by
+    intro e he
+    rw [tcEntries_eq] at he
+    obtain ⟨p, hp, hs, rfl⟩ := mem_entries.mp he
+    obtain ⟨f, hf, rfl⟩ := List.mem_map.mp hp
+    have hs' : f.skip = false := hs
+    simp [Field.required, hs', hr f hf]
+  rw [drTcLoop_eq db _ _ hreq]
+  show _ = mapErr rowErrOf (match dvTcLoop true db (tcEntries d.fields) (requiredCount d.fields) with
+    | .error x => .error x
+    | .ok (_, rem) => if rem > 0 then .error .dvValuesMissing else .ok ())
+  cases dvTcLoop true db (tcEntries d.fields) (requiredCount d.fields) with
+  | error x => rfl
+  | ok r =>
+    obtain ⟨es', rem⟩ := r
+    simp only [mapErr]
+    by_cases h : rem > 0 <;> simp [h, mapErr, rowErrOf]
+
+/-- `tcRowByName_accepts_iff`: the by-name row type check succeeds exactly when every column is bound to a
+field of the column's type (rows REJECT excess columns: `ColumnWithUnknownName`), no column name occurs twice,
+and every non-skipped field has its column — in any column order. -/
+theorem tcRowByName_accepts_iff (d : Desc) (db : List Col) (hr : RowFields d.fields)
+    (hv : ValidNames (slots d.fields)) :
+    tcRowByName d db = .ok () ↔
+      (∀ c ∈ db, ∃ f v, fieldFor (slots d.fields) c.name = some (f, v) ∧ f.ty = c.ty) ∧
+      (names db).Nodup ∧
+      (∀ f ∈ d.fields, f.skip = false → f.col ∈ names db) := by
+  rw [tcRowByName_eq d db hr, mapErr_ok_iff, tcValueByName_accepts_iff (asUdt d) db hv]
+  have hcol : ∀ c, TcColAccepted (asUdt d) c ↔ ∃ f v, fieldFor (slots d.fields) c.name = some (f, v) ∧ f.ty = c.ty := by
+    intro c
+    unfold TcColAccepted asUdt
+    simp only []
+    cases fieldFor (slots d.fields) c.name with
+    | none => simp
+    | some p =>
+      obtain ⟨f, v⟩ := p
+      constructor
+      · intro h; exact ⟨f, v, rfl, h⟩
+      · rintro ⟨f', v', h1, h2⟩; cases h1; exact h2
+  have hreq : (∀ f ∈ d.fields, f.required = true → f.col ∈ names db) ↔
+      (∀ f ∈ d.fields, f.skip = false → f.col ∈ names db) := by
+    apply forall₂_congr
+    intro f hf
+    simp [Field.required, hr f hf]
+  constructor
+  · rintro ⟨h1, h2, h3⟩
+    have h1' := fun c hc => (hcol c).mp (h1 c hc)
+    refine ⟨h1', ?_, hreq.mp h3⟩
+    have : matchedNames (fieldFor (slots d.fields)) db = names db := by
+      unfold matchedNames names
+      rw [List.filter_eq_self.mpr]
+      intro c hc
+      obtain ⟨f, v, hf, _⟩ := h1' c hc
+      simp [hf]
+    rw [← this]; exact h2
+  · rintro ⟨h1, h2, h3⟩
+    refine ⟨fun c hc => (hcol c).mpr (h1 c hc), ?_, hreq.mpr h3⟩
+    unfold matchedNames
+    exact List.Nodup.sublist ((List.filter_sublist).map _) h2
+
+/-- the by-name row type check does not depend on the column order -/
+theorem tcRowByName_perm (d : Desc) (db db' : List Col) (hr : RowFields d.fields)
+    (hv : ValidNames (slots d.fields)) (hp : db.Perm db') :
+    tcRowByName d db = .ok () ↔ tcRowByName d db' = .ok () := by
+  rw [tcRowByName_eq d db hr, tcRowByName_eq d db' hr, mapErr_ok_iff, mapErr_ok_iff]
+  exact tcValueByName_perm (asUdt d) db db' hv hp
+
+/-- type check + deserialization of a row by name = those of the UDT code with excess forbidden, when the
+row carries a cell for every column (error kinds renamed) -/
+theorem deserRow_eq_value (d : Desc) (db : List Col) (cells : List Cell) (hfl : d.flavor = .byName)
+    (hr : RowFields d.fields) (hv : ValidNames (slots d.fields)) (hlen : db.length ≤ cells.length) :
+    deserRow d db cells = mapErr rowErrOf (deserValue (asUdt d) db cells) := by
+  unfold deserRow deserValue
+  have hfl' : (asUdt d).flavor = .byName := hfl
+  rw [hfl, hfl', tcRowByName_eq d db hr]
+  simp only []
+  cases htc : tcValueByName (asUdt d) db with
+  | error x => rfl
+  | ok u =>
+    cases u
+    simp only [mapErr]
+    obtain ⟨hcols, _, _⟩ := (tcValueByName_accepts_iff (asUdt d) db hv).mp htc
+    unfold deRowByName deValueByName
+    rw [rowItems_eq db cells hlen]
+    have hall : ∀ it ∈ udtItems db cells, (lookupE it.1.name (tcEntries d.fields)).isSome = true := by
+      intro it hit
+      have hc : it.1 ∈ db := by
+        have : it.1 ∈ (udtItems db cells).map (·.1) := List.mem_map_of_mem hit
+        rwa [udtItems_fst] at this
+      have := hcols it.1 hc
+      unfold TcColAccepted at this
+      have hlook := congrFun (show fv (tcEntries d.fields) = fieldFor (slots d.fields) from by
+        funext n; rw [tcEntries_eq, fv_entries]) it.1.name
+      cases hf : fieldFor (slots (asUdt d).fields) it.1.name with
+      | none => rw [hf] at this; simp [asUdt] at this
+      | some p =>
+        have hf' : fieldFor (slots d.fields) it.1.name = some p := hf
+        rw [hf'] at hlook
+        unfold fv at hlook
+        cases hl : lookupE it.1.name (tcEntries d.fields) with
+        | none => rw [hl] at hlook; cases hlook
+        | some e => rfl
+    rw [drDeLoop_eq _ _ hall]
+    show _ = mapErr rowErrOf (match dvDeLoop (udtItems db cells) (tcEntries d.fields) with
+      | .error x => .error x
+      | .ok es => dvFinalize es d.fields)
+    cases dvDeLoop (udtItems db cells) (tcEntries d.fields) with
+    | error x => rfl
+    | ok es =>
+      show drFinalize es d.fields = mapErr rowErrOf (dvFinalize es d.fields)
+      rw [drFinalize_eq es d.fields hr, mapErr_dvFinalize]
+
+/-- `deserRowByName_spec` (as an equivalence): a row is accepted with result `vs` exactly when the type check
+passes, every cell deserializes, and each field holds the like-named column's value (`skip` ↦ default, null
+with `default_when_null` ↦ default) — wherever the database lists the column. -/
+theorem deserRowByName_iff (d : Desc) (db : List Col) (cells : List Cell) (vs : List Val)
+    (hfl : d.flavor = .byName) (hr : RowFields d.fields) (hv : ValidNames (slots d.fields))
+    (hlen : db.length ≤ cells.length) :
+    deserRow d db cells = .ok vs ↔
+      tcRowByName d db = .ok () ∧ (∀ f ∈ d.fields, (fieldResult db cells f).isSome = true) ∧
+      vs = d.fields.map (fun f => (fieldResult db cells f).getD none) := by
+  rw [deserRow_eq_value d db cells hfl hr hv hlen, mapErr_ok_iff, tcRowByName_eq d db hr, mapErr_ok_iff]
+  exact deserValueByName_iff (asUdt d) db cells vs hfl hv
+
+/-- a row with fewer cells than columns is never accepted -/
+theorem deserRow_short (d : Desc) (db : List Col) (cells : List Cell) (hfl : d.flavor = .byName)
+    (hlen : cells.length < db.length) : ∃ x, deserRow d db cells = .error x := by
+  unfold deserRow
+  rw [hfl]
+  simp only []
+  cases tcRowByName d db with
+  | error x => exact ⟨x, rfl⟩
+  | ok u =>
+    simp only []
+    unfold deRowByName
+    have key : ∀ (db : List Col) (cells : List Cell) (es : List Entry), cells.length < db.length →
+        ∃ x, drDeLoop (rowItems db cells) es = .error x := by
+      intro db
+      induction db with
+      | nil => intro cells es h; simp at h
+      | cons c cs ih =>
+        intro cells es h
+        cases cells with
+        | nil => exact ⟨_, rfl⟩
+        | cons v vs' =>
+          simp only [rowItems]
+          unfold drDeLoop
+          cases lookupE c.name es with
+          | none => exact ⟨_, rfl⟩
+          | some e =>
+            simp only []
+            split
+            · exact ⟨_, rfl⟩
+            · split
+              · exact ⟨_, rfl⟩
+              · exact ih vs' _ (by simpa using h)
+    obtain ⟨x, hx⟩ := key db cells (tcEntries d.fields) hlen
+    exact ⟨x, by rw [hx]⟩
+
+/-- `deserRowByName_perm`: the (column, cell) pairs of a row may come in any order -/
+theorem deserRowByName_perm (d : Desc) (items items' : List (Col × Cell)) (vs : List Val)
+    (hfl : d.flavor = .byName) (hr : RowFields d.fields) (hv : ValidNames (slots d.fields))
+    (hp : items.Perm items') :
+    deserRow d (items.map (·.1)) (items.map (·.2)) = .ok vs ↔
+      deserRow d (items'.map (·.1)) (items'.map (·.2)) = .ok vs := by
+  rw [deserRow_eq_value d _ _ hfl hr hv (by simp), deserRow_eq_value d _ _ hfl hr hv (by simp),
+    mapErr_ok_iff, mapErr_ok_iff]
+  exact deserValueByName_perm (asUdt d) items items' vs hfl hv hp
+
+/-- `row_byname_roundtrip`: for a by-name struct deriving SerializeRow + DeserializeRow, whatever the order of
+the columns (distinct names, column types those of the like-named fields): if serialization succeeds,
+deserializing the written cells gives back every field's value (`skip` fields come back as the default). -/
+theorem row_byname_roundtrip (d : Desc) (fvs : List (Field × Val)) (db : List Col) (cells : List Cell)
+    (hfl : d.flavor = .byName) (hfields : d.fields = fvs.map (·.1)) (hr : RowFields d.fields)
+    (hv : ValidNames fvs) (hdb : (names db).Nodup)
+    (htypes : ∀ c ∈ db, ∀ f v, fieldFor fvs c.name = some (f, v) → f.ty = c.ty)
+    (hwt : ∀ p ∈ fvs, WellTyped p.1 p.2)
+    (hser : serRow d fvs db = .ok cells) :
+    deserRow d db cells = .ok (fvs.map (fun p => if p.1.skip then defaultVal p.1 else p.2)) := by
+  have hser' : serRowByName fvs db = .ok cells := by unfold serRow at hser; rw [hfl] at hser; exact hser
+  obtain ⟨_, hpres, hcells⟩ := (serRowByName_iff fvs db hv cells).mp hser'
+  have hlen : db.length ≤ cells.length := by rw [hcells]; simp
+  -- the UDT serializer with excess forbidden writes the same cells
+  have hsv : serValue (asUdt d) fvs db = .ok cells := by
+    unfold serValue
+    have : (asUdt d).flavor = .byName := hfl
+    rw [this]
+    simp only []
+    unfold serValueByName
+    unfold serRowByName at hser'
+    simp only [] at hser' ⊢
+    rw [srLoop_eq] at hser'
+    show (match svLoop true db (entries fvs) (entries fvs).length 0 with
+      | .error x => Except.error x
+      | .ok (cells, es', rem) => if svMissing es' rem then Except.error Err.svValueMissing else Except.ok cells) =
+        Except.ok cells
+    cases hl : svLoop true db (entries fvs) (entries fvs).length 0 with
+    | error x => rw [hl] at hser'; cases hser'
+    | ok r =>
+      obtain ⟨cells0, es', rem⟩ := r
+      rw [hl] at hser'
+      simp only [] at hser' ⊢
+      unfold srCheckMissing at hser'
+      by_cases hz : rem = 0
+      · subst hz
+        simp only [beq_self_eq_true, if_true] at hser'
+        cases hser'
+        simp [svMissing]
+      · have hb : (rem == 0) = false := by simpa using hz
+        simp only [hb, Bool.false_eq_true, if_false] at hser'
+        by_cases hany : (es'.any fun e => !e.visited) = true
+        · simp [hany] at hser'
+        · simp [hany] at hser'
+          subst hser'
+          have hm : svMissing es' rem = false := by
+            unfold svMissing
+            have : es'.any (fun e => !e.visited && !e.f.allowMissing) = false := by
+              simp only [Bool.not_eq_true] at hany
+              rw [List.any_eq_false] at hany ⊢
+              intro e he
+              have := hany e he
+              simp only [Bool.not_eq_true, Bool.not_eq_false'] at this
+              simp [this]
+            simp [this]
+          simp [hm]
+  have hv' : ValidNames (slots d.fields) := by
+    unfold ValidNames; rw [hfields, entries_slots_cols]; exact hv
+  have hrt := byname_roundtrip (asUdt d) fvs db cells hfl hfields hv hdb htypes hwt hsv
+  rw [deserRow_eq_value d db cells hfl hr hv' hlen, hrt]
+  simp only [mapErr]
+  congr 1
+  apply List.map_congr_left
+  intro p hp
+  by_cases hs : p.1.skip = true
+  · simp [hs]
+  · simp only [Bool.not_eq_true] at hs
+    have := hpres p hp hs
+    have hc : (names db).contains p.1.col = true := by simpa using this
+    simp only [hs, hc, Bool.not_true, Bool.or_false, Bool.false_eq_true, if_false]
+
+/-! ### ordered flavor, rows: exactly the declared order (with `skip_name_checks`: purely by position) -/
+
+private theorem serVal_some {f : Field} {v : Val} {ty : Ty} {cell : Cell} (h : serVal f v ty = some cell) :
+    cell = v := by
+  unfold serVal at h
+  cases v with
+  | none => simpa using h.symm
+  | some b =>
+    simp only [] at h
+    split at h
+    · simpa using h.symm
+    · cases h
+
+/-- the (field, column) pair of one position is acceptable: the names agree — not looked at under
+`skip_name_checks` — and the value fits the column's type -/
+def PairFits (skipNames : Bool) (p : Field × Val) (c : Col) : Prop :=
+  (skipNames = true ∨ c.name = p.1.col) ∧ (p.2 = none ∨ p.1.ty = c.ty)
+
+private theorem serVal_isSome_iff (f : Field) (v : Val) (ty : Ty) :
+    (∃ cell, serVal f v ty = some cell) ↔ (v = none ∨ f.ty = ty) := by
+  unfold serVal
+  cases v with
+  | none => simp
+  | some b => by_cases h : f.ty = ty <;> simp [h]
+
+/-- `ordered_accepts_exactly` for `SerializeRow` (`fs` = the non-skipped fields): ordered row serialization
+succeeds exactly when there are as many columns as fields and, position by position, the column has the
+field's name (with `skip_name_checks`: any name — binding is purely positional) and the value fits; the
+cells are the field values in declared order. -/
+theorem srOrdered_iff (skipNames : Bool) (fs : List (Field × Val)) : ∀ (db : List Col) (cells : List Cell),
+    srOrdered skipNames fs db = .ok cells ↔
+      fs.length = db.length ∧ (∀ pc ∈ fs.zip db, PairFits skipNames pc.1 pc.2) ∧ cells = fs.map (·.2) := by
+  induction fs with
+  | nil =>
+    intro db cells
+    cases db with
+    | nil => simp [srOrdered]
+    | cons c cs => simp [srOrdered]
+  | cons p fs ih =>
+    intro db cells
+    obtain ⟨f, v⟩ := p
+    cases db with
+    | nil => simp [srOrdered]
+    | cons c cs =>
+      unfold srOrdered
+      simp only [List.length_cons, List.zip_cons_cons, List.forall_mem_cons, List.map_cons, Nat.add_right_cancel_iff]
+      by_cases hn : (skipNames = true ∨ c.name = f.col)
+      · have hb : (!skipNames && c.name != f.col) = false := by
+          rcases hn with h | h
+          · simp [h]
+          · simp [h]
+        simp only [hb, Bool.false_eq_true, if_false]
+        cases hs : serVal f v c.ty with
+        | none =>
+          simp only [reduceCtorEq, false_iff]
+          rintro ⟨_, ⟨hfit, _⟩, _⟩
+          have := (serVal_isSome_iff f v c.ty).mpr hfit.2
+          rw [hs] at this
+          obtain ⟨_, h⟩ := this
+          cases h
+        | some cell =>
+          have hcell := serVal_some hs
+          subst hcell
+          have hfit : PairFits skipNames (f, cell) c := ⟨hn, (serVal_isSome_iff f cell c.ty).mp ⟨_, hs⟩⟩
+          simp only []
+          cases hr : srOrdered skipNames fs cs with
+          | error x =>
+            simp only [reduceCtorEq, false_iff]
+            rintro ⟨h1, ⟨_, h2⟩, h3⟩
+            have := (ih cs (fs.map (·.2))).mpr ⟨h1, h2, rfl⟩
+            rw [hr] at this
+            cases this
+          | ok cells' =>
+            obtain ⟨h1, h2, h3⟩ := (ih cs cells').mp hr
+            simp only [Except.ok.injEq]
+            constructor
+            · intro h; subst h; exact ⟨h1, ⟨hfit, h2⟩, by rw [h3]⟩
+            · rintro ⟨_, _, h⟩; rw [h, h3]
+      · have hb : (!skipNames && c.name != f.col) = true := by
+          have h1 : skipNames = false := by
+            cases skipNames with
+            | true => exact absurd (Or.inl rfl) hn
+            | false => rfl
+          have h2 : c.name ≠ f.col := fun h => hn (Or.inr h)
+          simp [h1, h2]
+        simp only [hb, if_true, reduceCtorEq, false_iff]
+        rintro ⟨_, ⟨hfit, _⟩, _⟩
+        exact hn hfit.1
+
+private theorem drTcOrd_iff (sn : Bool) (fs : List Field) : ∀ (db : List Col), db.length = fs.length →
+    (drTcOrd sn fs db = .ok () ↔
+      ∀ fc ∈ fs.zip db, (sn = true ∨ fc.2.name = fc.1.col) ∧ fc.1.ty = fc.2.ty) := by
+  induction fs with
+  | nil => intro db _; simp [drTcOrd]
+  | cons f fs ih =>
+    intro db hlen
+    cases db with
+    | nil => simp at hlen
+    | cons c cs =>
+      unfold drTcOrd
+      simp only [List.zip_cons_cons, List.forall_mem_cons]
+      have hlen' : cs.length = fs.length := by simpa using hlen
+      by_cases hn : (sn = true ∨ c.name = f.col)
+      · have hb : (!sn && c.name != f.col) = false := by
+          rcases hn with h | h <;> simp [h]
+        simp only [hb, Bool.false_eq_true, if_false]
+        by_cases ht : f.ty = c.ty
+        · have hb2 : (f.ty != c.ty) = false := by simp [ht]
+          simp only [hb2, Bool.false_eq_true, if_false, ih cs hlen']
+          constructor
+          · intro h; exact ⟨⟨hn, ht⟩, h⟩
+          · intro h; exact h.2
+        · have hb2 : (f.ty != c.ty) = true := by simp [ht]
+          simp only [hb2, if_true, reduceCtorEq, false_iff]
+          rintro ⟨⟨_, h⟩, _⟩; exact ht h
+      · have hb : (!sn && c.name != f.col) = true := by
+          have h1 : sn = false := by
+            cases sn with
+            | true => exact absurd (Or.inl rfl) hn
+            | false => rfl
+          have h2 : c.name ≠ f.col := fun h => hn (Or.inr h)
+          simp [h1, h2]
+        simp only [hb, if_true, reduceCtorEq, false_iff]
+        rintro ⟨⟨h, _⟩, _⟩; exact hn h
+
+/-- `ordered_accepts_exactly` for the `DeserializeRow` type check: as many columns as non-skipped fields and,
+position by position, the field's name (`skip_name_checks`: any name) and the field's type. -/
+theorem tcRowOrdered_iff (d : Desc) (db : List Col) :
+    tcRowOrdered d db = .ok () ↔
+      db.length = (d.fields.filter (fun f => !f.skip)).length ∧
+      ∀ fc ∈ (d.fields.filter (fun f => !f.skip)).zip db,
+        (d.skipNameChecks = true ∨ fc.2.name = fc.1.col) ∧ fc.1.ty = fc.2.ty := by
+  unfold tcRowOrdered rowRequiredCount
+  by_cases hlen : db.length = (d.fields.filter (fun f => !f.skip)).length
+  · have hb : (db.length != (d.fields.filter (fun f => !f.skip)).length) = false := by simp [hlen]
+    rw [hb]
+    simp only [Bool.false_eq_true, if_false]
+    rw [drTcOrd_iff _ _ db hlen]
+    exact ⟨fun h => ⟨hlen, h⟩, fun h => h.2⟩
+  · have hb : (db.length != (d.fields.filter (fun f => !f.skip)).length) = true := by simp [hlen]
+    rw [hb]
+    simp only [if_true, reduceCtorEq, false_iff]
+    rintro ⟨h, _⟩; exact hlen h
+
+/-! ### ordered flavor, UDTs: the full `ordered_accepts_exactly` (greedy `allow_missing` rule) -/
+
+/-- a database name list is in the declared order: `m ++ rest` with `m` a subsequence of the declared names
+(in declared order) containing every field without `allow_missing`, `rest` = excess fields at the end, none
+under `forbid_excess_udt_fields` -/
+def DeclaredOrder (forbid : Bool) (decl : List (String × Bool)) (dbNames : List String) : Prop :=
+  ∃ m rest, dbNames = m ++ rest ∧ m.Sublist (decl.map (·.1)) ∧
+    (∀ p ∈ decl, p.2 = false → p.1 ∈ m) ∧ (forbid = true → rest = [])
+
+/-- generic completeness of the greedy walk: `step` abstracts "the like-named column is acceptable" -/
+private theorem greedy_complete (forbid : Bool) (decl : List (String × Bool)) (hnd : (decl.map (·.1)).Nodup) :
+    ∀ (dbNames : List String), DeclaredOrder forbid decl dbNames →
+      -- the walk: every declared field either takes the head (names equal) or is skipped (allow_missing)
+      ∀ (P : List (String × Bool) → List String → Prop),
+        (∀ db, (forbid = true → db = []) → P [] db) →
+        (∀ n am fs, am = true → P fs [] → P ((n, am) :: fs) []) →
+        (∀ n am fs c cs, c = n → P fs cs → P ((n, am) :: fs) (c :: cs)) →
+        (∀ n am fs c cs, c ≠ n → am = true → P fs (c :: cs) → P ((n, am) :: fs) (c :: cs)) →
+        P decl dbNames := by
+  induction decl with
+  | nil =>
+    intro dbNames ⟨m, rest, h1, h2, _, h4⟩ P p0 _ _ _
+    have hm : m = [] := by simpa using h2
+    subst hm
+    apply p0
+    intro hf
+    rw [h1, h4 hf]; rfl
+  | cons a decl ih =>
+    intro dbNames ⟨m, rest, h1, h2, h3, h4⟩ P p0 p1 p2 p3
+    obtain ⟨n, am⟩ := a
+    simp only [List.map_cons, List.nodup_cons] at hnd
+    have hsub := List.sublist_cons_iff.mp h2
+    cases dbNames with
+    | nil =>
+      have hm : m = [] := by
+        cases m with
+        | nil => rfl
+        | cons x xs => simp at h1
+      have hr : rest = [] := by subst hm; simpa using h1.symm
+      subst hm; subst hr
+      have ham : am = true := by
+        cases ham : am with
+        | true => rfl
+        | false => have := h3 (n, am) (List.mem_cons_self ..) ham; simp at this
+      apply p1 n am decl ham
+      exact ih hnd.2 [] ⟨[], [], rfl, List.nil_sublist _, fun p hp hpa => by
+        have := h3 p (List.mem_cons_of_mem _ hp) hpa; simp at this, h4⟩ P p0 p1 p2 p3
+    | cons c cs =>
+      by_cases hc : c = n
+      · apply p2 n am decl c cs hc
+        apply ih hnd.2 cs _ P p0 p1 p2 p3
+        rcases List.cons_eq_append_iff.mp h1 with ⟨hm, hr⟩ | ⟨m', hm, hcs⟩
+        · subst hm
+          refine ⟨[], cs, rfl, List.nil_sublist _, fun p hp hpa => ?_, fun hf => ?_⟩
+          · have := h3 p (List.mem_cons_of_mem _ hp) hpa; simp at this
+          · rw [h4 hf] at hr; cases hr
+        · subst hm
+          refine ⟨m', rest, hcs, ?_, ?_, h4⟩
+          · rcases hsub with h | ⟨r, hr, hrs⟩
+            · exfalso
+              apply hnd.1
+              rw [← hc]
+              exact h.subset (List.mem_cons_self ..)
+            · cases hr; exact hrs
+          · intro p hp hpa
+            have := h3 p (List.mem_cons_of_mem _ hp) hpa
+            rcases List.mem_cons.mp this with h | h
+            · exfalso
+              apply hnd.1
+              rw [← hc, ← h]
+              exact List.mem_map_of_mem hp
+            · exact h
+      · -- the head column is not this field's: the field must be `allow_missing` and is skipped
+        have hnm : n ∉ m := by
+          intro hin
+          rcases List.cons_eq_append_iff.mp h1 with ⟨hm, _⟩ | ⟨m', hm, _⟩
+          · subst hm; cases hin
+          · subst hm
+            rcases hsub with h | ⟨r, hr, hrs⟩
+            · exact hnd.1 (h.subset hin)
+            · cases hr; exact hc rfl
+        have ham : am = true := by
+          cases ham : am with
+          | true => rfl
+          | false => exact absurd (h3 (n, am) (List.mem_cons_self ..) ham) hnm
+        apply p3 n am decl c cs hc ham
+        apply ih hnd.2 (c :: cs) _ P p0 p1 p2 p3
+        refine ⟨m, rest, h1, ?_, fun p hp hpa => h3 p (List.mem_cons_of_mem _ hp) hpa, h4⟩
+        rcases hsub with h | ⟨r, hr, hrs⟩
+        · exact h
+        · exfalso; apply hnm; rw [hr]; exact List.mem_cons_self ..
+
+/-- the declared (name, allow_missing) list of the fields the ordered walk sees -/
+def declOf (fs : List (Field × Val)) : List (String × Bool) := fs.map (fun p => (p.1.col, p.1.allowMissing))
+
+/-- side condition of the full ordered characterisation: a column carrying a declared field's name is
+acceptable for that field.  It excludes exactly the name-collision corner (see the `example` below: an excess
+column named like a skipped `allow_missing` field but of another type is an error, not an excess column). -/
+def NameMatchFits (fs : List (Field × Val)) (db : List Col) : Prop :=
+  ∀ c ∈ db, ∀ p ∈ fs, c.name = p.1.col → (p.2 = none ∨ p.1.ty = c.ty)
+
+/-- `ordered_accepts_exactly` for `SerializeValue` (names checked; `fs` = the non-skipped fields with their
+values): ordered UDT serialization succeeds exactly when the database names are in `DeclaredOrder` — the
+greedy `allow_missing` rule and the excess-suffix rule included. -/
+theorem svOrdered_accepts_iff (forbid : Bool) (fs : List (Field × Val)) (db : List Col)
+    (hnd : (fs.map (·.1.col)).Nodup) (hfit : NameMatchFits fs db) :
+    (∃ cells, svOrdered false forbid fs db = .ok cells) ↔ DeclaredOrder forbid (declOf fs) (names db) := by
+  constructor
+  · rintro ⟨cells, h⟩
+    obtain ⟨m, rest, h1, h2, h3, h4, _⟩ := svOrdered_sound forbid fs db cells h
+    refine ⟨m, rest, h1, by simpa [declOf, List.map_map, Function.comp_def] using h2, ?_, h4⟩
+    intro p hp hpa
+    obtain ⟨q, hq, rfl⟩ := List.mem_map.mp hp
+    exact h3 q hq hpa
+  · intro hdo
+    have hnd' : ((declOf fs).map (·.1)).Nodup := by
+      simpa [declOf, List.map_map, Function.comp_def] using hnd
+    have := greedy_complete forbid (declOf fs) hnd' (names db) hdo
+      (fun decl dbn => ∀ (fs : List (Field × Val)) (db : List Col), declOf fs = decl → names db = dbn →
+        NameMatchFits fs db → ∃ cells, svOrdered false forbid fs db = .ok cells)
+      (by
+        intro dbn hdbn fs db hfs hdb _
+        have : fs = [] := by simpa [declOf] using hfs
+        subst this
+        unfold svOrdered
+        cases forbid with
+        | false => exact ⟨_, rfl⟩
+        | true =>
+          have : db = [] := by
+            have := hdbn rfl
+            rw [← hdb] at this
+            simpa [names] using this
+          subst this
+          exact ⟨_, rfl⟩)
+      (by
+        intro n am decl ham ih fs db hfs hdb hfit
+        cases fs with
+        | nil => simp [declOf] at hfs
+        | cons p fs' =>
+          obtain ⟨f, v⟩ := p
+          simp only [declOf, List.map_cons, List.cons.injEq, Prod.mk.injEq] at hfs
+          have hdb' : db = [] := by simpa [names] using hdb
+          subst hdb'
+          unfold svOrdered
+          rw [hfs.1.2, ham]
+          simp only [if_true]
+          exact ih fs' [] hfs.2 rfl (fun c hc => by cases hc))
+      (by
+        intro n am decl c cs hc ih fs db hfs hdb hfit
+        cases fs with
+        | nil => simp [declOf] at hfs
+        | cons p fs' =>
+          obtain ⟨f, v⟩ := p
+          simp only [declOf, List.map_cons, List.cons.injEq, Prod.mk.injEq] at hfs
+          cases db with
+          | nil => simp [names] at hdb
+          | cons col cols =>
+            simp only [names, List.map_cons, List.cons.injEq] at hdb
+            have hname : col.name = f.col := by rw [hdb.1, hc, hfs.1.1]
+            unfold svOrdered
+            simp only [Bool.false_or, hname, beq_self_eq_true, if_true]
+            obtain ⟨cell, hcell⟩ := (serVal_isSome_iff f v col.ty).mpr
+              (hfit col (List.mem_cons_self ..) (f, v) (List.mem_cons_self ..) hname)
+            rw [hcell]
+            simp only []
+            obtain ⟨cells, hcells⟩ := ih fs' cols hfs.2 hdb.2
+              (fun c' hc' p' hp' => hfit c' (List.mem_cons_of_mem _ hc') p' (List.mem_cons_of_mem _ hp'))
+            rw [hcells]
+            exact ⟨_, rfl⟩)
+      (by
+        intro n am decl c cs hc ham ih fs db hfs hdb hfit
+        cases fs with
+        | nil => simp [declOf] at hfs
+        | cons p fs' =>
+          obtain ⟨f, v⟩ := p
+          simp only [declOf, List.map_cons, List.cons.injEq, Prod.mk.injEq] at hfs
+          cases db with
+          | nil => simp [names] at hdb
+          | cons col cols =>
+            have hdb' := hdb
+            simp only [names, List.map_cons, List.cons.injEq] at hdb'
+            have hname : col.name ≠ f.col := by rw [hdb'.1, hfs.1.1]; exact hc
+            have hb : (col.name == f.col) = false := by simpa using hname
+            unfold svOrdered
+            simp only [Bool.false_or, hb, Bool.false_eq_true, if_false, hfs.1.2, ham, if_true]
+            exact ih fs' (col :: cols) hfs.2 hdb
+              (fun c' hc' p' hp' => hfit c' hc' p' (List.mem_cons_of_mem _ hp')))
+    exact this fs db rfl rfl hfit
+
+/-- which value is written where: the i-th cell is the value of the field named like the i-th column -/
+theorem svOrdered_cells (forbid : Bool) (fs : List (Field × Val)) : ∀ (db : List Col) (cells : List Cell),
+    svOrdered false forbid fs db = .ok cells →
+    ∀ (i : Nat) (cell : Cell), cells[i]? = some cell →
+      ∃ c p, db[i]? = some c ∧ p ∈ fs ∧ c.name = p.1.col ∧ cell = p.2 := by
+  induction fs with
+  | nil =>
+    intro db cells h i cell hi
+    unfold svOrdered at h
+    have : cells = [] := by cases forbid <;> cases db <;> simp at h <;> simp [← h]
+    subst this
+    simp at hi
+  | cons p fs ih =>
+    intro db cells h i cell hi
+    obtain ⟨f, v⟩ := p
+    cases db with
+    | nil =>
+      unfold svOrdered at h
+      split at h
+      · obtain ⟨c, q, hc, _⟩ := ih [] cells h i cell hi
+        simp at hc
+      · cases h
+    | cons c cs =>
+      unfold svOrdered at h
+      simp only [Bool.false_or] at h
+      by_cases hn : c.name = f.col
+      · simp only [hn, beq_self_eq_true, if_true] at h
+        cases hs : serVal f v c.ty with
+        | none => rw [hs] at h; cases h
+        | some cell0 =>
+          rw [hs] at h
+          simp only [] at h
+          cases hr : svOrdered false forbid fs cs with
+          | error x => rw [hr] at h; cases h
+          | ok cells' =>
+            rw [hr] at h
+            cases h
+            cases i with
+            | zero =>
+              simp only [List.getElem?_cons_zero, Option.some.injEq] at hi
+              subst hi
+              exact ⟨c, (f, v), rfl, List.mem_cons_self .., hn, serVal_some hs⟩
+            | succ i =>
+              simp only [List.getElem?_cons_succ] at hi
+              obtain ⟨c', q, h1, h2, h3, h4⟩ := ih cs cells' hr i cell hi
+              exact ⟨c', q, by simpa using h1, List.mem_cons_of_mem _ h2, h3, h4⟩
+      · have hb : (c.name == f.col) = false := by simpa using hn
+        simp only [hb, Bool.false_eq_true, if_false] at h
+        split at h
+        · obtain ⟨c', q, h1, h2, h3, h4⟩ := ih (c :: cs) cells h i cell hi
+          exact ⟨c', q, h1, List.mem_cons_of_mem _ h2, h3, h4⟩
+        · cases h
+
+/-- `ordered_accepts_exactly` for the `DeserializeValue` type check walk (names checked; `fs` = the
+non-skipped fields), under the side condition that a column named like a declared field has its type -/
+theorem dvTcOrd_accepts_iff (forbid : Bool) (fs : List Field) (db : List Col)
+    (hnd : (fs.map Field.col).Nodup)
+    (hfit : ∀ c ∈ db, ∀ f ∈ fs, c.name = f.col → f.ty = c.ty) :
+    dvTcOrd false forbid fs db = .ok () ↔
+      DeclaredOrder forbid (fs.map (fun f => (f.col, f.allowMissing))) (names db) := by
+  constructor
+  · intro h
+    obtain ⟨m, rest, h1, h2, h3, h4⟩ := dvTcOrd_sound forbid fs db h
+    refine ⟨m, rest, h1, by simpa [List.map_map, Function.comp_def] using h2, ?_, h4⟩
+    intro p hp hpa
+    obtain ⟨q, hq, rfl⟩ := List.mem_map.mp hp
+    exact h3 q hq hpa
+  · intro hdo
+    have hnd' : ((fs.map (fun f => (f.col, f.allowMissing))).map (·.1)).Nodup := by
+      simpa [List.map_map, Function.comp_def] using hnd
+    have := greedy_complete forbid _ hnd' (names db) hdo
+      (fun decl dbn => ∀ (fs : List Field) (db : List Col), fs.map (fun f => (f.col, f.allowMissing)) = decl →
+        names db = dbn → (∀ c ∈ db, ∀ f ∈ fs, c.name = f.col → f.ty = c.ty) →
+        dvTcOrd false forbid fs db = .ok ())
+      (by
+        intro dbn hdbn fs db hfs hdb _
+        have : fs = [] := by simpa using hfs
+        subst this
+        unfold dvTcOrd
+        cases forbid with
+        | false => rfl
+        | true =>
+          have : db = [] := by
+            have := hdbn rfl
+            rw [← hdb] at this
+            simpa [names] using this
+          subst this
+          rfl)
+      (by
+        intro n am decl ham ih fs db hfs hdb hfit
+        cases fs with
+        | nil => simp at hfs
+        | cons f fs' =>
+          simp only [List.map_cons, List.cons.injEq, Prod.mk.injEq] at hfs
+          have hdb' : db = [] := by simpa [names] using hdb
+          subst hdb'
+          unfold dvTcOrd
+          rw [hfs.1.2, ham]
+          simp only [if_true]
+          exact ih fs' [] hfs.2 rfl (fun c hc => by cases hc))
+      (by
+        intro n am decl c cs hc ih fs db hfs hdb hfit
+        cases fs with
+        | nil => simp at hfs
+        | cons f fs' =>
+          simp only [List.map_cons, List.cons.injEq, Prod.mk.injEq] at hfs
+          cases db with
+          | nil => simp [names] at hdb
+          | cons col cols =>
+            simp only [names, List.map_cons, List.cons.injEq] at hdb
+            have hname : f.col = col.name := by rw [hdb.1, hc, hfs.1.1]
+            have hty := hfit col (List.mem_cons_self ..) f (List.mem_cons_self ..) hname.symm
+            unfold dvTcOrd
+            have hb1 : (f.col != col.name) = false := by simp [hname]
+            have hb2 : (f.ty != col.ty) = false := by simp [hty]
+            simp only [Bool.not_false, Bool.true_and, hb1, hb2, Bool.false_eq_true, if_false]
+            exact ih fs' cols hfs.2 hdb.2
+              (fun c' hc' f' hf' => hfit c' (List.mem_cons_of_mem _ hc') f' (List.mem_cons_of_mem _ hf')))
+      (by
+        intro n am decl c cs hc ham ih fs db hfs hdb hfit
+        cases fs with
+        | nil => simp at hfs
+        | cons f fs' =>
+          simp only [List.map_cons, List.cons.injEq, Prod.mk.injEq] at hfs
+          cases db with
+          | nil => simp [names] at hdb
+          | cons col cols =>
+            have hdb' := hdb
+            simp only [names, List.map_cons, List.cons.injEq] at hdb'
+            have hname : f.col ≠ col.name := by rw [hdb'.1, hfs.1.1]; exact fun h => hc h.symm
+            have hb1 : (f.col != col.name) = true := by simp [hname]
+            unfold dvTcOrd
+            simp only [Bool.not_false, Bool.true_and, hb1, if_true, hfs.1.2, ham]
+            exact ih fs' (col :: cols) hfs.2 hdb
+              (fun c' hc' f' hf' => hfit c' hc' f' (List.mem_cons_of_mem _ hf')))
+    exact this fs db rfl rfl hfit
+
+/-- the `fields.len() < required_fields` pre-check of the ordered UDT type check never decides: the walk
+itself rejects (with the same `TooFewFields`) whenever there are fewer columns than required fields -/
+theorem dvTcOrd_length (skipNames forbid : Bool) (fs : List Field) : ∀ (db : List Col),
+    dvTcOrd skipNames forbid fs db = .ok () → (fs.filter (fun f => !f.allowMissing)).length ≤ db.length := by
+  induction fs with
+  | nil => intro db _; simp
+  | cons f fs ih =>
+    intro db h
+    cases db with
+    | nil =>
+      unfold dvTcOrd at h
+      split at h
+      · rename_i ha
+        have := ih [] h
+        simp [List.filter_cons, ha] at this ⊢
+        exact this
+      · cases h
+    | cons c cs =>
+      unfold dvTcOrd at h
+      rw [List.filter_cons]
+      split at h
+      · split at h
+        · rename_i ha
+          have := ih (c :: cs) h
+          simp only [ha, Bool.not_true, Bool.false_eq_true, if_false]
+          exact this
+        · cases h
+      · split at h
+        · cases h
+        · have := ih cs h
+          split <;> simp only [List.length_cons] <;> omega
+
+/-- the name-collision corner the side condition excludes: `struct { a: i32, #[allow_missing] b: i32 }` against
+the UDT `(a int, b text)`: the names are in `DeclaredOrder` (`m = [a]`, `b` an excess field), yet the walk
+binds `b` by name and fails on its type — and the by-name flavor rejects the same input the same way. -/
+example :
+    let fa : Field := ⟨"a", none, .int, false, false, false, false⟩
+    let fb : Field := ⟨"b", none, .int, false, false, true, false⟩
+    let db : List Col := [⟨"a", .int⟩, ⟨"b", .text⟩]
+    DeclaredOrder false [("a", false), ("b", true)] (names db) ∧
+    dvTcOrd false false [fa, fb] db = .error .dvFieldTypeCheckFailed ∧
+    svOrdered false false [(fa, some [0, 0, 0, 1]), (fb, some [0, 0, 0, 2])] db = .error .svFieldSerFailed := by
+  refine ⟨⟨["a"], ["b"], rfl, ?_, ?_, by simp⟩, ?_, ?_⟩
+  · exact List.Sublist.cons_cons _ (List.Sublist.cons _ List.Sublist.slnil)
+  · intro p hp hpa
+    simp only [List.mem_cons, List.not_mem_nil, or_false] at hp
+    rcases hp with rfl | rfl
+    · simp
+    · simp at hpa
+  · simp [dvTcOrd, Field.col]
+  · simp [svOrdered, serVal, Field.col]
+
+/-! ### `skip_name_checks`: the ordered flavor binds purely by position -/
+
+/-- with `skip_name_checks`, ordered UDT serialization never looks at a name: it succeeds exactly when the
+i-th value fits the i-th column, the fields beyond the last column are all `allow_missing`, and (under
+`forbid_excess_udt_fields`) there are no more columns than fields; the cells are the first values in order. -/
+theorem svOrdered_skipNames_iff (forbid : Bool) (fs : List (Field × Val)) : ∀ (db : List Col) (cells : List Cell),
+    svOrdered true forbid fs db = .ok cells ↔
+      (∀ pc ∈ fs.zip db, pc.1.2 = none ∨ pc.1.1.ty = pc.2.ty) ∧
+      (∀ p ∈ fs.drop db.length, p.1.allowMissing = true) ∧
+      (forbid = true → db.length ≤ fs.length) ∧
+      cells = (fs.take db.length).map (·.2) := by
+  induction fs with
+  | nil =>
+    intro db cells
+    unfold svOrdered
+    cases forbid <;> cases db <;> simp <;> exact eq_comm
+  | cons p fs ih =>
+    intro db cells
+    obtain ⟨f, v⟩ := p
+    cases db with
+    | nil =>
+      unfold svOrdered
+      by_cases ha : f.allowMissing = true
+      · simp only [ha, if_true, ih [] cells]
+        simp [ha]
+      · simp only [ha, Bool.false_eq_true, if_false, reduceCtorEq, false_iff]
+        rintro ⟨_, h, _⟩
+        exact ha (h (f, v) (by simp))
+    | cons c cs =>
+      unfold svOrdered
+      simp only [Bool.true_or, if_true, List.zip_cons_cons, List.forall_mem_cons, List.length_cons,
+        List.drop_succ_cons, List.take_succ_cons, List.map_cons, Nat.add_le_add_iff_right]
+      cases hs : serVal f v c.ty with
+      | none =>
+        simp only [reduceCtorEq, false_iff]
+        rintro ⟨⟨hfit, _⟩, _⟩
+        obtain ⟨_, h⟩ := (serVal_isSome_iff f v c.ty).mpr hfit
+        rw [hs] at h; cases h
+      | some cell =>
+        have := serVal_some hs
+        subst this
+        have hfit := (serVal_isSome_iff f cell c.ty).mp ⟨_, hs⟩
+        simp only []
+        cases hr : svOrdered true forbid fs cs with
+        | error x =>
+          simp only [reduceCtorEq, false_iff]
+          rintro ⟨⟨_, h1⟩, h2, h3, _⟩
+          have := (ih cs _).mpr ⟨h1, h2, h3, rfl⟩
+          rw [hr] at this; cases this
+        | ok cells' =>
+          obtain ⟨h1, h2, h3, h4⟩ := (ih cs cells').mp hr
+          simp only [Except.ok.injEq]
+          constructor
+          · intro h; subst h; exact ⟨⟨hfit, h1⟩, h2, h3, by rw [h4]⟩
+          · rintro ⟨_, _, _, h⟩; rw [h, h4]
+
+/-- the same for the ordered UDT type check with `skip_name_checks`: purely positional -/
+theorem dvTcOrd_skipNames_iff (forbid : Bool) (fs : List Field) : ∀ (db : List Col),
+    dvTcOrd true forbid fs db = .ok () ↔
+      (∀ fc ∈ fs.zip db, fc.1.ty = fc.2.ty) ∧
+      (∀ f ∈ fs.drop db.length, f.allowMissing = true) ∧
+      (forbid = true → db.length ≤ fs.length) := by
+  induction fs with
+  | nil =>
+    intro db
+    unfold dvTcOrd
+    cases forbid <;> cases db <;> simp
+  | cons f fs ih =>
+    intro db
+    cases db with
+    | nil =>
+      unfold dvTcOrd
+      by_cases ha : f.allowMissing = true
+      · simp only [ha, if_true, ih []]
+        simp [ha]
+      · simp only [ha, Bool.false_eq_true, if_false, reduceCtorEq, false_iff]
+        rintro ⟨_, h, _⟩
+        exact ha (h f (by simp))
+    | cons c cs =>
+      unfold dvTcOrd
+      simp only [Bool.not_true, Bool.false_and, Bool.false_eq_true, if_false, List.zip_cons_cons,
+        List.forall_mem_cons, List.length_cons, List.drop_succ_cons, Nat.add_le_add_iff_right]
+      by_cases ht : f.ty = c.ty
+      · have hb : (f.ty != c.ty) = false := by simp [ht]
+        simp only [hb, Bool.false_eq_true, if_false, ih cs]
+        constructor
+        · rintro ⟨h1, h2, h3⟩; exact ⟨⟨ht, h1⟩, h2, h3⟩
+        · rintro ⟨⟨_, h1⟩, h2, h3⟩; exact ⟨h1, h2, h3⟩
+      · have hb : (f.ty != c.ty) = true := by simp [ht]
+        simp only [hb, if_true, reduceCtorEq, false_iff]
+        rintro ⟨⟨h, _⟩, _⟩; exact ht h
+
+/-! ### the ordered deserialize walk binds exactly the fields the ordered serializer wrote -/
+
+/-- what comes back through the ordered flavor: walking fields and columns in lock step, a field that takes
+the head column (same name, or any name under `skip_name_checks`) comes back with its value, a skipped or
+passed-over (`allow_missing`) field as `Default::default()` -/
+def ordExpected (skipNames : Bool) : List (Field × Val) → List Col → List Val
+  | [], _ => []
+  | (f, v) :: fs, db =>
+    if f.skip then defaultVal f :: ordExpected skipNames fs db
+    else match db with
+      | [] => defaultVal f :: ordExpected skipNames fs []
+      | c :: cs =>
+        if skipNames || c.name == f.col then v :: ordExpected skipNames fs cs
+        else defaultVal f :: ordExpected skipNames fs (c :: cs)
+
+private theorem dvDeOrd_walk (sn forbid : Bool) (fvs : List (Field × Val)) (hwt : ∀ p ∈ fvs, WellTyped p.1 p.2) :
+    ∀ (db : List Col) (cells : List Cell),
+    svOrdered sn forbid (fvs.filter (fun p => !p.1.skip)) db = .ok cells →
+    dvDeOrd sn (fvs.map (·.1)) (udtItems db cells) = .ok (ordExpected sn fvs db) := by
+  induction fvs with
+  | nil => intro db cells _; rfl
+  | cons p fvs ih =>
+    intro db cells h
+    obtain ⟨f, v⟩ := p
+    have ih' := ih (fun q hq => hwt q (List.mem_cons_of_mem _ hq))
+    simp only [List.map_cons]
+    unfold dvDeOrd ordExpected
+    by_cases hs : f.skip = true
+    · rw [List.filter_cons] at h
+      simp only [hs, Bool.not_true, Bool.false_eq_true, if_false] at h
+      simp only [hs, if_true]
+      rw [ih' db cells h]
+    · simp only [Bool.not_eq_true] at hs
+      rw [List.filter_cons] at h
+      simp only [hs, Bool.not_false, if_true] at h
+      simp only [hs, Bool.false_eq_true, if_false]
+      cases db with
+      | nil =>
+        unfold svOrdered at h
+        split at h
+        · rename_i ha
+          have := ih' [] cells h
+          simp only [udtItems] at this ⊢
+          simp only [ha, if_true, this]
+        · cases h
+      | cons c cs =>
+        unfold svOrdered at h
+        by_cases hn : (sn || c.name == f.col) = true
+        · simp only [hn, if_true] at h
+          cases hsv : serVal f v c.ty with
+          | none => rw [hsv] at h; cases h
+          | some cell =>
+            rw [hsv] at h
+            simp only [] at h
+            have hcell := serVal_some hsv
+            subst hcell
+            cases hr : svOrdered sn forbid (fvs.filter (fun p => !p.1.skip)) cs with
+            | error x => rw [hr] at h; cases h
+            | ok cells' =>
+              rw [hr] at h
+              cases h
+              have hn' : (sn || f.col == c.name) = true := by
+                simp only [Bool.or_eq_true, beq_iff_eq] at hn ⊢
+                rcases hn with h | h
+                · exact Or.inl h
+                · exact Or.inr h.symm
+              simp only [udtItems, hn', hn, if_true,
+                deValD_wellTyped f cell (hwt (f, cell) (List.mem_cons_self ..)), ih' cs cells' hr]
+        · simp only [Bool.not_eq_true] at hn
+          simp only [hn, Bool.false_eq_true, if_false] at h
+          split at h
+          · rename_i ha
+            have hn' : (sn || f.col == c.name) = false := by
+              simp only [Bool.or_eq_false_iff, beq_eq_false_iff_ne] at hn ⊢
+              exact ⟨hn.1, fun h => hn.2 h.symm⟩
+            have := ih' (c :: cs) cells h
+            cases cells with
+            | nil =>
+              simp only [udtItems] at this ⊢
+              simp only [hn', hn, Bool.false_eq_true, if_false, ha, if_true, this]
+            | cons x xs =>
+              simp only [udtItems] at this ⊢
+              simp only [hn', hn, Bool.false_eq_true, if_false, ha, if_true, this]
+          · cases h
+
+/-- `ordered_roundtrip`: for the ordered flavor (names checked or `skip_name_checks`), if serialization to a
+UDT succeeds and the UDT passes the type check, deserializing the written cells returns, field by field, what
+the lock-step walk bound: the value of every field that took a column, the default for the others. -/
+theorem ordered_roundtrip (d : Desc) (fvs : List (Field × Val)) (db : List Col) (cells : List Cell)
+    (hfl : d.flavor = .ordered) (hfields : d.fields = fvs.map (·.1))
+    (hwt : ∀ p ∈ fvs, WellTyped p.1 p.2)
+    (hser : serValue d fvs db = .ok cells) (htc : tcValueOrdered d db = .ok ()) :
+    deserValue d db cells = .ok (ordExpected d.skipNameChecks fvs db) := by
+  unfold serValue at hser
+  rw [hfl] at hser
+  unfold deserValue
+  rw [hfl]
+  simp only [htc]
+  unfold deValueOrdered
+  rw [hfields]
+  exact dvDeOrd_walk d.skipNameChecks d.forbidExcess fvs hwt db cells hser
+
+/-- the `required_fields` pre-check of the ordered UDT type check is implied by the walk: the type check
+succeeds exactly when the walk over the non-skipped fields does -/
+theorem tcValueOrdered_iff_walk (d : Desc) (db : List Col) :
+    tcValueOrdered d db = .ok () ↔
+      dvTcOrd d.skipNameChecks d.forbidExcess (d.fields.filter (fun f => !f.skip)) db = .ok () := by
+  unfold tcValueOrdered
+  have hcount : requiredCount d.fields = ((d.fields.filter (fun f => !f.skip)).filter (fun f => !f.allowMissing)).length := by
+    unfold requiredCount
+    rw [List.filter_filter]
+    congr 1
+    apply List.filter_congr
+    intro f _
+    simp [Field.required, Bool.and_comm]
+  by_cases hlt : db.length < requiredCount d.fields
+  · simp only [hlt, if_true, reduceCtorEq, false_iff]
+    intro h
+    have := dvTcOrd_length _ _ _ db h
+    omega
+  · simp only [hlt, if_false]
+
+/-! ### `#[scylla(flatten)]`, ordered flavor: serializing the nested struct = serializing its flattened field list -/
+
+mutual
+/-- the non-skipped leaf fields of a (possibly nested) struct, in declaration order -/
+def flatLeaves : RField → List (Field × Val)
+  | .leaf f v => if f.skip then [] else [(f, v)]
+  | .flat skip _ inner => if skip then [] else flatLeavesList inner
+def flatLeavesList : List RField → List (Field × Val)
+  | [] => []
+  | r :: rs => flatLeaves r ++ flatLeavesList rs
+end
+
+mutual
+/-- every flattened struct inside uses the same `skip_name_checks` setting `sn` as the enclosing one -/
+def uniformSn (sn : Bool) : RField → Bool
+  | .leaf _ _ => true
+  | .flat _ snc inner => (snc == sn) && uniformSnList sn inner
+def uniformSnList (sn : Bool) : List RField → Bool
+  | [] => true
+  | r :: rs => uniformSn sn r && uniformSnList sn rs
+end
+
+/-- the flat lock-step walk, returning the columns left over -/
+def srOrdPrefix (sn : Bool) : List (Field × Val) → List Col → Except Err (List Cell × List Col)
+  | [], db => .ok ([], db)
+  | _ :: _, [] => .error .srNoColumnWithName
+  | (f, v) :: fs, c :: cs =>
+    if !sn && c.name != f.col then .error .srColumnNameMismatch
+    else match serVal f v c.ty with
+      | none => .error .srColumnSerFailed
+      | some cell =>
+        match srOrdPrefix sn fs cs with
+        | .error x => .error x
+        | .ok (cells, rest) => .ok (cell :: cells, rest)
+
+private theorem srOrdPrefix_append (sn : Bool) (xs ys : List (Field × Val)) : ∀ db,
+    srOrdPrefix sn (xs ++ ys) db =
+      match srOrdPrefix sn xs db with
+      | .error x => .error x
+      | .ok (cells, rest) =>
+        match srOrdPrefix sn ys rest with
+        | .error x => .error x
+        | .ok (more, rest') => .ok (cells ++ more, rest') := by
+  induction xs with
+  | nil =>
+    intro db
+    simp only [List.nil_append, srOrdPrefix]
+    cases srOrdPrefix sn ys db with
+    | error x => rfl
+    | ok r => obtain ⟨a, b⟩ := r; rfl
+  | cons p xs ih =>
+    intro db
+    obtain ⟨f, v⟩ := p
+    cases db with
+    | nil => rfl
+    | cons c cs =>
+      simp only [List.cons_append, srOrdPrefix]
+      split
+      · rfl
+      · cases serVal f v c.ty with
+        | none => rfl
+        | some cell =>
+          simp only [ih cs]
+          cases srOrdPrefix sn xs cs with
+          | error x => rfl
+          | ok r =>
+            obtain ⟨a, b⟩ := r
+            simp only []
+            cases srOrdPrefix sn ys b with
+            | error x => rfl
+            | ok r' => obtain ⟨a', b'⟩ := r'; rfl
+
+private theorem srOrdered_eq_prefix (sn : Bool) (fs : List (Field × Val)) : ∀ db,
+    srOrdered sn fs db =
+      match srOrdPrefix sn fs db with
+      | .error x => .error x
+      | .ok (cells, []) => .ok cells
+      | .ok (_, _ :: _) => .error .srValueMissingForColumn := by
+  induction fs with
+  | nil => intro db; cases db <;> rfl
+  | cons p fs ih =>
+    intro db
+    obtain ⟨f, v⟩ := p
+    cases db with
+    | nil => rfl
+    | cons c cs =>
+      simp only [srOrdered, srOrdPrefix]
+      split
+      · rfl
+      · cases serVal f v c.ty with
+        | none => rfl
+        | some cell =>
+          simp only [ih cs]
+          cases srOrdPrefix sn fs cs with
+          | error x => rfl
+          | ok r =>
+            obtain ⟨a, b⟩ := r
+            cases b <;> rfl
+
+private theorem srOrderedN_list (sn : Bool) : ∀ (rs : List RField) (db : List Col),
+    uniformSnList sn rs = true → srOrderedN sn rs db = srOrdPrefix sn (flatLeavesList rs) db
+  | [], db, _ => by simp [srOrderedN, flatLeavesList, srOrdPrefix]
+  | .leaf f v :: rest, db, h => by
+    unfold uniformSnList at h
+    simp only [Bool.and_eq_true] at h
+    have ihrest := fun db => srOrderedN_list sn rest db h.2
+    unfold srOrderedN flatLeavesList flatLeaves
+    by_cases hs : f.skip = true
+    · simp only [hs, if_true, List.nil_append]
+      exact ihrest db
+    · simp only [Bool.not_eq_true] at hs
+      simp only [hs, Bool.false_eq_true, if_false, List.singleton_append]
+      cases db with
+      | nil => rfl
+      | cons c cs =>
+        simp only [srOrdPrefix]
+        split
+        · rfl
+        · cases serVal f v c.ty with
+          | none => rfl
+          | some cell =>
+            simp only [ihrest cs]
+            cases srOrdPrefix sn (flatLeavesList rest) cs <;> rfl
+  | .flat skip snc inner :: rest, db, h => by
+    unfold uniformSnList uniformSn at h
+    simp only [Bool.and_eq_true, beq_iff_eq] at h
+    have ihrest := fun db => srOrderedN_list sn rest db h.2
+    have ihinner := fun db => srOrderedN_list sn inner db h.1.2
+    unfold srOrderedN flatLeavesList flatLeaves
+    by_cases hs : skip = true
+    · simp only [hs, if_true, List.nil_append]
+      exact ihrest db
+    · simp only [Bool.not_eq_true] at hs
+      simp only [hs, Bool.false_eq_true, if_false]
+      rw [h.1.1, ihinner db, srOrdPrefix_append]
+      cases srOrdPrefix sn (flatLeavesList inner) db with
+      | error x => rfl
+      | ok r' =>
+        obtain ⟨a, b⟩ := r'
+        simp only [ihrest b]
+        cases srOrdPrefix sn (flatLeavesList rest) b <;> rfl
+
+/-- `serRow_flatten_eq_flat` (ordered flavor): serializing a struct with `#[scylla(flatten)]` sub-structs (all
+with the enclosing struct's `skip_name_checks` setting) is serializing the flattened list of its non-skipped
+leaf fields — results and error kinds coincide. -/
+theorem serRowOrderedN_eq_flat (sn : Bool) (rs : List RField) (db : List Col)
+    (hu : uniformSnList sn rs = true) :
+    serRowOrderedN sn rs db = srOrdered sn (flatLeavesList rs) db := by
+  unfold serRowOrderedN
+  rw [srOrderedN_list sn rs db hu, srOrdered_eq_prefix]
+  cases srOrdPrefix sn (flatLeavesList rs) db with
+  | error x => rfl
+  | ok r => obtain ⟨a, b⟩ := r; cases b <;> rfl
+
+/-! ### `#[scylla(flatten)]`, by-name flavor: nested = flattened field list (after /repo b2d6bfa) -/
+
+private theorem entries_append (xs ys : List (Field × Val)) : entries (xs ++ ys) = entries xs ++ entries ys := by
+  unfold entries
+  rw [List.filter_append, List.map_append]
+
+private theorem countActive_cons_leaf (f : Field) (v : Val) (rest : List RField) :
+    countActive (.leaf f v :: rest) = (if f.skip then 0 else 1) + countActive rest := rfl
+private theorem countActive_cons_flat (skip snc : Bool) (inner rest : List RField) :
+    countActive (.flat skip snc inner :: rest) = (if skip then 0 else 1) + countActive rest := rfl
+
+/-- `SerializeRowByName::partial` of a nested struct: its leaves are the entries of the flattened field list,
+the invariant holds, and `remaining_count` is the number of (unset) flags -/
+private theorem mkPFields_spec : ∀ (rs : List RField),
+    leavesL (mkPFields rs) = entries (flatLeavesList rs) ∧ invL (mkPFields rs) ∧
+      countActive rs = unflagged (mkPFields rs)
+  | [] => by simp [mkPFields, leavesL, flatLeavesList, entries, invL, countActive, unflagged]
+  | .leaf f v :: rest => by
+    obtain ⟨h1, h2, h3⟩ := mkPFields_spec rest
+    rw [countActive_cons_leaf]
+    unfold mkPFields mkPField flatLeavesList flatLeaves
+    by_cases hs : f.skip = true
+    · simp only [hs, if_true, List.nil_append, Nat.zero_add]
+      exact ⟨h1, h2, h3⟩
+    · simp only [Bool.not_eq_true] at hs
+      simp only [hs, Bool.false_eq_true, if_false]
+      refine ⟨?_, ?_, ?_⟩
+      · rw [leavesL_cons_leaf, h1, entries_append]
+        simp [entries, hs]
+      · rw [invL_cons]; exact ⟨trivial, h2⟩
+      · rw [unflagged_cons, h3]; simp [flagged]
+  | .flat skip snc inner :: rest => by
+    obtain ⟨h1, h2, h3⟩ := mkPFields_spec rest
+    obtain ⟨i1, i2, i3⟩ := mkPFields_spec inner
+    rw [countActive_cons_flat]
+    unfold mkPFields mkPField flatLeavesList flatLeaves
+    by_cases hs : skip = true
+    · simp only [hs, if_true, List.nil_append, Nat.zero_add]
+      exact ⟨h1, h2, h3⟩
+    · simp only [Bool.not_eq_true] at hs
+      simp only [hs, Bool.false_eq_true, if_false]
+      refine ⟨?_, ?_, ?_⟩
+      · rw [leavesL_cons_flat, h1, i1, entries_append]
+      · rw [invL_cons]
+        exact ⟨by unfold invP; exact ⟨i2, i3, fun h => by cases h⟩, h2⟩
+      · rw [unflagged_cons, h3]; simp [flagged]
+
+/-- `serRowByName_flatten_eq_flat`: by-name serialization of a struct with `#[scylla(flatten)]` sub-structs —
+any nesting depth, skipped and empty sub-structs included — IS by-name serialization of the flattened list of
+its non-skipped leaf fields: same cells, same error kind, for every column list.  Hypothesis: leaf names
+pairwise distinct (a name used twice is shadowed).  True of the code since b2d6bfa; before, the C16-F8 shape
+was a counterexample. -/
+theorem serRowByName_flatten_eq_flat (rs : List RField) (db : List Col) (hv : ValidNames (flatLeavesList rs)) :
+    serRowByNameN rs db = serRowByName (flatLeavesList rs) db := by
+  obtain ⟨h1, h2, h3⟩ := mkPFields_spec rs
+  unfold serRowByNameN serRowByName
+  simp only []
+  have hnd : NodupLeaves (mkPFields rs) := by unfold NodupLeaves; rw [h1]; exact hv
+  have hlen : (entries (flatLeavesList rs)).length = unv allTrue (leavesL (mkPFields rs)) := by
+    rw [h1]
+    unfold unv
+    rw [List.filter_eq_self.mpr]
+    intro e he
+    simp [entries_unvisited _ e he, allTrue]
+  have hsim := loopN_sim db (mkPFields rs) (countActive rs) (entries (flatLeavesList rs)).length hnd h2 h3 hlen
+  rw [h1] at hsim
+  cases hloop : srLoop db (entries (flatLeavesList rs)) (entries (flatLeavesList rs)).length with
+  | error x =>
+    rw [hloop] at hsim
+    simp only [] at hsim ⊢
+    rw [hsim]
+  | ok r =>
+    obtain ⟨cells, es', r'⟩ := r
+    rw [hloop] at hsim
+    simp only [] at hsim ⊢
+    obtain ⟨fields', rem', hl, hleaves, hinv', hrem', hr'⟩ := hsim
+    rw [hl]
+    simp only []
+    rw [checkMissingN_spec fields' rem' hinv' hrem', hleaves, ← hr']
+
+/-- consequently the flattened struct obeys the by-name law: accepted exactly when every column is bound to a
+leaf (at any nesting depth) whose value fits and every non-skipped leaf has its column; the cells are the
+leaves' values at their columns' positions -/
+theorem serRowByNameN_iff (rs : List RField) (db : List Col) (hv : ValidNames (flatLeavesList rs))
+    (cells : List Cell) :
+    serRowByNameN rs db = .ok cells ↔
+      (∀ c ∈ db, ∃ f v, fieldFor (flatLeavesList rs) c.name = some (f, v) ∧ (v = none ∨ f.ty = c.ty)) ∧
+      (∀ p ∈ flatLeavesList rs, p.1.skip = false → p.1.col ∈ names db) ∧
+      cells = db.map (fun c => ((fieldFor (flatLeavesList rs) c.name).map (·.2)).getD none) := by
+  rw [serRowByName_flatten_eq_flat rs db hv]
+  exact serRowByName_iff (flatLeavesList rs) db hv cells
+
+/-! ### exact error kinds of the by-name UDT serializer -/
+
+private theorem svFirstErr_append (forbid : Bool) (look : String → Option (Field × Val)) (pre : List Col) (c : Col)
+    (post : List Col) (hpre : ∀ c' ∈ pre, colOk forbid look c' = true) (hbad : colOk forbid look c = false) :
+    svFirstErr forbid look (pre ++ c :: post) =
+      if (look c.name).isSome then .svFieldSerFailed else .svNoSuchField := by
+  induction pre with
+  | nil => simp [svFirstErr, hbad]
+  | cons a pre ih =>
+    simp only [List.cons_append, svFirstErr, hpre a (List.mem_cons_self ..), if_true]
+    exact ih (fun c' hc' => hpre c' (List.mem_cons_of_mem _ hc'))
+
+/-- the error is that of the FIRST unacceptable column in database order: `FieldSerializationFailed` when a
+field is bound to it (its value does not fit the column's type), `NoSuchFieldInUdt` when it is an excess
+column under `forbid_excess_udt_fields` — and this takes precedence over a missing required field. -/
+theorem serValueByName_error_kind (d : Desc) (fvs : List (Field × Val)) (pre : List Col) (c : Col) (post : List Col)
+    (hv : ValidNames fvs) (hpre : ∀ c' ∈ pre, ColAccepted d.forbidExcess fvs c')
+    (hbad : ¬ ColAccepted d.forbidExcess fvs c) :
+    serValueByName d fvs (pre ++ c :: post) =
+      .error (if (fieldFor fvs c.name).isSome then .svFieldSerFailed else .svNoSuchField) := by
+  rw [serValueByName_closed d fvs _ hv]
+  have hbad' : colOk d.forbidExcess (fv (entries fvs)) c = false := by
+    rw [← Bool.not_eq_true]; exact fun h => hbad ((colOk_iff _ fvs c).mp h)
+  have hall : (pre ++ c :: post).all (colOk d.forbidExcess (fv (entries fvs))) = false := by
+    rw [← Bool.not_eq_true, List.all_eq_true]
+    intro h
+    have := h c (by simp)
+    rw [hbad'] at this; cases this
+  rw [hall]
+  simp only [Bool.false_eq_true, if_false]
+  rw [svFirstErr_append _ _ pre c post (fun c' hc' => (colOk_iff _ fvs c').mpr (hpre c' hc')) hbad', fv_entries]
+
+/-- a database field name listed twice: by-name SERIALIZATION writes the bound field's value at BOTH
+positions (instance of `serValueByName_position`, which needs no distinctness), whereas the by-name type
+check of deserialization rejects the UDT (`DuplicatedField`) — so `byname_roundtrip` is stated for distinct
+database names only. -/
+theorem tcValueByName_duplicate_rejected (d : Desc) (db : List Col) (hv : ValidNames (slots d.fields))
+    (i j : Nat) (c c' : Col) (hij : i < j) (hi : db[i]? = some c) (hj : db[j]? = some c') (hn : c.name = c'.name)
+    (hb : (fieldFor (slots d.fields) c.name).isSome = true) :
+    tcValueByName d db ≠ .ok () := by
+  intro h
+  obtain ⟨_, hnd, _⟩ := (tcValueByName_accepts_iff d db hv).mp h
+  -- two bound columns of the same name survive the filter
+  have key : ∀ (db : List Col) (i j : Nat), i < j → db[i]? = some c → db[j]? = some c' →
+      ¬ (matchedNames (fieldFor (slots d.fields)) db).Nodup := by
+    intro db
+    induction db with
+    | nil => intro i j _ hi; simp at hi
+    | cons a db ih =>
+      intro i j hij hi hj hnd
+      unfold matchedNames at hnd
+      rw [List.filter_cons] at hnd
+      cases j with
+      | zero => omega
+      | succ j =>
+        simp only [List.getElem?_cons_succ] at hj
+        cases i with
+        | zero =>
+          simp only [List.getElem?_cons_zero, Option.some.injEq] at hi
+          subst hi
+          simp only [hb, if_true, List.map_cons, List.nodup_cons] at hnd
+          apply hnd.1
+          rw [hn]
+          exact List.mem_map.mpr ⟨c', List.mem_filter.mpr ⟨List.mem_of_getElem? hj, by rw [← hn]; exact hb⟩, rfl⟩
+        | succ i =>
+          simp only [List.getElem?_cons_succ] at hi
+          apply ih i j (by omega) hi hj
+          split at hnd
+          · simp only [List.map_cons, List.nodup_cons] at hnd; exact hnd.2
+          · exact hnd
+  exact key db i j hij hi hj hnd
 
 /-! ### non-vacuity: concrete structs, orders and values -/
 
@@ -1022,6 +2502,20 @@ example : okOpt (svOrdered false false [(fB, v2), (fC, none)] [⟨"b", .int⟩, 
   decide +kernel
 example : errOf (svOrdered false false [(fB, v2), (fC, none)] [⟨"cc", .text⟩, ⟨"b", .int⟩])
     = some .svFieldNameMismatch := by decide +kernel
+/-- regression for C16-F8 (fixed by /repo b2d6bfa): an empty flattened struct declared before another flattened
+struct no longer hides the latter's missing columns — nested and flattened agree on `NoColumnWithName` -/
+private def fX : Field := ⟨"x", none, .int, false, false, false, false⟩
+private def fY : Field := ⟨"y", none, .text, false, false, false, false⟩
+private def s07 : List RField :=
+  [.flat false false [], .leaf fB v1, .flat false false [.leaf fX v2, .leaf fY (some [104])]]
+example : errOf (serRowByNameN s07 [⟨"b", .int⟩]) = some .srNoColumnWithName := by decide +kernel
+example : errOf (serRowByName (flatLeavesList s07) [⟨"b", .int⟩]) = some .srNoColumnWithName := by decide +kernel
+example : okOpt (serRowByNameN s07 [⟨"y", .text⟩, ⟨"b", .int⟩, ⟨"x", .int⟩]) = some [some [104], v1, v2] := by
+  decide +kernel
+/-- ordered row flavor and `skip_name_checks`: positional binding -/
+example : okOpt (srOrdered true [(fB, v2), (fX, v1)] [⟨"zz", .int⟩, ⟨"b", .int⟩]) = some [v2, v1] := by decide +kernel
+example : okOpt (deserRow ⟨.byName, false, false, [fB, fX]⟩ [⟨"x", .int⟩, ⟨"b", .int⟩] [v1, v2]) = some [v2, v1] := by
+  decide +kernel
 end Examples
 
 end ScyllaVerif.Props.C16
